@@ -354,7 +354,7 @@ def _b_pwinner(d, c):
 @builder('pwinner_adj')
 def _b_pwinner_adj(d, c):
     vf = _sp(d, c, 'vf')
-    return odl.PointwiseInnerAdjoint(vf[0], c.vec(vf, d['v']), vfspace=vf,
+    return odl.operator.tensor_ops.PointwiseInnerAdjoint(vf[0], c.vec(vf, d['v']), vfspace=vf,
                                      weighting=_pw_weighting(d.get('w')))
 
 
@@ -619,9 +619,20 @@ def _b_flvec(d, c, a):
     return c.vec(_sp(d, c), d['v']) * a.op
 
 
+class AdjointUnavailable(Exception):
+    """An operand of a tree is ``B.adjoint`` and B offers no adjoint."""
+
+
 @builder('adjoint')
 def _b_adjoint(d, c, a):
-    return a.op.adjoint
+    try:
+        adj = a.op.adjoint
+    except Exception as e:  # noqa: conditional property
+        raise AdjointUnavailable('{}:{}'.format(type(a.op).__name__,
+                                                type(e).__name__))
+    if adj is None:
+        raise AdjointUnavailable('{}:None'.format(type(a.op).__name__))
+    return adj
 
 
 @builder('pow')
@@ -657,9 +668,13 @@ def _dtype(draw, field):
 def tensor_sd(draw, field, wkinds=('none', 'const', 'array'), min_side=1,
               max_size=8, max_ndim=2, shape=None):
     shape = shape or _small_shape(draw, min_side, max_size, max_ndim)
-    return {'kind': 'tensor', 'shape': list(shape),
-            'dtype': _dtype(draw, field), 'exponent': 2.0,
-            'weighting': draw(vs.weightings(shape, wkinds))}
+    sd = {'kind': 'tensor', 'shape': list(shape),
+          'dtype': _dtype(draw, field), 'exponent': 2.0,
+          'weighting': draw(vs.weightings(shape, wkinds))}
+    if sd['weighting'] is not None and sd['weighting']['type'] == 'array':
+        # float64 weighting arrays are refused by 32-bit spaces (documented)
+        sd['dtype'] = 'float64' if field == 'real' else 'complex128'
+    return sd
 
 
 @st.composite
@@ -702,8 +717,36 @@ def pspace_sd(draw, field, max_len=3, max_part=4, wkinds=('none', 'const',
                                                            'array'),
               depth=1):
     leaves = leaf_sd(field, max_size=max_part)
-    return draw(vs.pspace_descs(leaves, max_depth=depth, max_len=max_len,
-                                weighting_kinds=wkinds))
+    sd = draw(vs.pspace_descs(leaves, max_depth=depth, max_len=max_len,
+                              weighting_kinds=wkinds))
+    # one dtype for all leaves: inner products of nested product spaces
+    # with mixed dtypes raise AttributeError (outside C05)
+    _set_dtype(sd, _dtype(draw, field))
+    return sd
+
+
+def _set_dtype(sd, dtype):
+    if _has_array_w(sd):
+        dtype = 'float64' if np.dtype(dtype).kind == 'f' else 'complex128'
+    _set_dtype_rec(sd, dtype)
+
+
+def _has_array_w(sd):
+    if sd['kind'] == 'pspace':
+        return any(_has_array_w(p) for p in build.space_parts(sd))
+    w = sd.get('weighting')
+    return w is not None and w['type'] == 'array'
+
+
+def _set_dtype_rec(sd, dtype):
+    if sd['kind'] == 'pspace':
+        if sd.get('power') is not None:
+            _set_dtype_rec(sd['base'], dtype)
+        else:
+            for p in sd['parts']:
+                _set_dtype_rec(p, dtype)
+    else:
+        sd['dtype'] = dtype
 
 
 def fields():
@@ -852,6 +895,13 @@ def fam_complex(draw):
     return _case('complex_ops', {'X': sd}, op)
 
 
+def _mdt(sd, field):
+    small = np.dtype(sd['dtype']).name in ('float32', 'complex64')
+    if field == 'real':
+        return 'float32' if small else 'float64'
+    return 'complex64' if small else 'complex128'
+
+
 def _matrix_desc(draw, shape, dtype):
     return draw(vs.array_descs(shape, dtype, orders=('C',), lo=-4, hi=4,
                                scale=1.0))
@@ -867,15 +917,19 @@ def fam_matrix(draw):
         mfield = 'real' if field == 'complex' else 'complex'
     mdt = 'float64' if mfield == 'real' else 'complex128'
     sparse = draw(st.integers(0, 4)) == 0
+    if mode != 'default':
+        if mode == 'discr':
+            sd = draw(discr_sd(field, max_size=8))
+        else:
+            sd = draw(tensor_sd(field, max_size=8))
+        if np.dtype(sd['dtype']).itemsize in (4, 8) and \
+                np.dtype(sd['dtype']).name in ('float32', 'complex64'):
+            mdt = 'float32' if mfield == 'real' else 'complex64'
     if mode == 'default':
         n, k = draw(st.integers(1, 6)), draw(st.integers(1, 6))
         op = {'e': 'matrix', 'dom': None, 'ran': None, 'axis': 0,
               'm': _matrix_desc(draw, [k, n], mdt), 'sparse': sparse}
         return _case('matrix', {}, op)
-    if mode == 'discr':
-        sd = draw(discr_sd(field, max_size=8))
-    else:
-        sd = draw(tensor_sd(field, max_size=8))
     shape = sd_shape(sd)
     if sparse:
         shape = [int(np.prod(shape))]
@@ -883,7 +937,7 @@ def fam_matrix(draw):
         if sd.get('weighting') and sd['weighting']['type'] == 'array':
             sd['weighting'] = None
         if sd['kind'] == 'discr':
-            sd = draw(discr_sd(field, shape=shape))
+            sd = dict(draw(discr_sd(field, shape=shape)), dtype=sd['dtype'])
     axis = draw(st.integers(0, len(shape) - 1))
     k = draw(st.sampled_from([shape[axis], shape[axis], 1, 2, 3]))
     rshape = list(shape)
@@ -894,6 +948,13 @@ def fam_matrix(draw):
     if mode == 'domran':
         rfield = 'complex' if 'complex' in (field, mfield) else 'real'
         spaces['Y'] = draw(tensor_sd(rfield, shape=rshape))
+        if spaces['Y']['weighting'] is None or \
+                spaces['Y']['weighting']['type'] != 'array':
+            small = np.dtype(sd['dtype']).name in ('float32', 'complex64')
+            spaces['Y']['dtype'] = {
+                ('real', True): 'float32', ('real', False): 'float64',
+                ('complex', True): 'complex64',
+                ('complex', False): 'complex128'}[(rfield, small)]
         if draw(st.booleans()) and sd['kind'] == 'tensor':
             # same weighting kind as the domain with an unrelated value
             w = sd.get('weighting')
@@ -940,7 +1001,10 @@ def fam_pointwise(draw):
     vf = ['pow', 'X', n, draw(pweights(n))]
     e = draw(st.sampled_from(['pwinner', 'pwinner', 'pwinner_adj', 'pwsum',
                               'pwnorm_deriv']))
-    if e == 'pwnorm_deriv' and field == 'complex':
+    if e == 'pwnorm_deriv' and (field == 'complex' or _has_array_w(base)):
+        # complex: documented as not differentiable; array-weighted base:
+        # PointwiseNorm.derivative itself raises (slicing creates unequal
+        # array-weighted spaces) - a derivative defect outside C05
         e = 'pwinner'
     op = {'e': e, 'vf': vf, 'w': draw(pweights(n))}
     if e in ('pwinner', 'pwinner_adj'):
@@ -960,6 +1024,11 @@ def fam_projection(draw):
     power = draw(st.booleans())
     for i in range(1 if power else n):
         parts['X{}'.format(i)] = draw(leaf_sd(field, max_size=4))
+    dt = parts['X0']['dtype']
+    if any(_has_array_w(p) for p in parts.values()):
+        dt = 'float64' if field == 'real' else 'complex128'
+    for p in parts.values():
+        p['dtype'] = dt
     keys = ['X0'] * n if power else ['X{}'.format(i) for i in range(n)]
     w = draw(pweights(n))
     T = ['pow', 'X0', n, w] if power else ['prod', keys, w]
@@ -994,16 +1063,14 @@ def fam_diff(draw):
     pads = DIFF_PADS + (DIFF_PADS_ADJ if draw(st.integers(0, 4)) == 0
                         else [])
     spaces = {'X': sd}
+    # explicit (weighted) power space for Gradient / Divergence; a range of
+    # another extent is refused by PartialDerivative / Laplacian (documented)
     other = draw(st.integers(0, 5)) == 0
-    if other:
-        # explicit range / domain: same grid shape, different extent
-        sd2 = dict(sd, max=[hi + 1.0 + i for i, hi in enumerate(sd['max'])])
-        spaces['Y'] = sd2
     if e == 'laplacian':
-        op = {'e': e, 'sp': 'X', 'ran': 'Y' if other else None,
+        op = {'e': e, 'sp': 'X', 'ran': 'X' if other else None,
               'pad_mode': draw(st.sampled_from(LAPL_PADS))}
     elif e == 'partial':
-        op = {'e': e, 'sp': 'X', 'ran': 'Y' if other else None,
+        op = {'e': e, 'sp': 'X', 'ran': 'X' if other else None,
               'axis': draw(st.integers(0, nd - 1)),
               'method': draw(st.sampled_from(DIFF_METHODS)),
               'pad_mode': draw(st.sampled_from(pads))}
@@ -1014,7 +1081,6 @@ def fam_diff(draw):
         op = {'e': e, 'sp': 'X', 'ran': ran,
               'method': draw(st.sampled_from(DIFF_METHODS)),
               'pad_mode': draw(st.sampled_from(pads))}
-        spaces.pop('Y', None)
     else:
         dom = None
         if other:
@@ -1022,7 +1088,6 @@ def fam_diff(draw):
         op = {'e': e, 'sp': 'X', 'dom': dom,
               'method': draw(st.sampled_from(DIFF_METHODS)),
               'pad_mode': draw(st.sampled_from(pads))}
-        spaces.pop('Y', None)
     return _case('diff_ops', spaces, op)
 
 
@@ -1087,8 +1152,14 @@ def fam_fourier(draw):
               'halfcomplex': True, 'impl': impl}
         if e.startswith('ft'):
             op['shift'] = True
-        if e in ('dft', 'dft_inv') and draw(st.integers(0, 3)) == 0:
-            op['halfcomplex'] = False       # adjoint not offered there
+        if e.endswith('_inv'):
+            op['sign'] = '+'
+        if e == 'dft' and draw(st.integers(0, 3)) == 0:
+            # real -> full complex spectrum: the returned adjoint cannot be
+            # evaluated (same root cause as C18's F19); the inverse variant
+            # and the pyfftw forward call are C18's business
+            op['halfcomplex'] = False
+            op['impl'] = 'numpy'
     else:
         op = {'e': e, 'sp': 'X', 'axes': axes,
               'sign': draw(st.sampled_from(['-', '+'])),
@@ -1202,6 +1273,10 @@ def _teq(a, b):
 def _leaf(draw, U, dom, ran):
     """A catalogue leaf ``dom -> ran`` (always possible: ZeroOperator)."""
     fd, fr = U.tfield(dom), U.tfield(ran)
+    if U.is_field(ran) and U.is_field(dom):
+        if draw(st.booleans()):
+            return {'e': 'identity', 'sp': dom}
+        return {'e': 'scaling', 'sp': dom, 's': draw(scalars(fd))}
     if U.is_field(ran):
         return {'e': 'inner', 'sp': dom, 'v': draw(seeds())}
     if U.is_field(dom):
@@ -1306,18 +1381,17 @@ def _leaf(draw, U, dom, ran):
         sd = U.base_sd(dom)
         axis = draw(st.integers(0, len(sd['shape']) - 1))
         n = sd['shape'][axis]
-        mdt = 'float64' if fd == 'real' else 'complex128'
         return {'e': 'matrix', 'dom': dom, 'ran': ran, 'axis': axis,
-                'm': _matrix_desc(draw, [n, n], mdt)}
+                'm': _matrix_desc(draw, [n, n], _mdt(sd, fd))}
     if e == 'matrix_like':
         sd = U.base_sd(dom)
         shape = sd['shape']
         rshape = [ran[2]] if isinstance(ran[2], int) else list(ran[2])
         axis = [i for i in range(len(shape)) if shape[i] != rshape[i]]
         axis = axis[0] if axis else 0
-        mdt = 'float64' if fd == 'real' else 'complex128'
         return {'e': 'matrix', 'dom': dom, 'ran': ran, 'axis': axis,
-                'm': _matrix_desc(draw, [rshape[axis], shape[axis]], mdt)}
+                'm': _matrix_desc(draw, [rshape[axis], shape[axis]],
+                                  _mdt(sd, fd))}
     if e == 'flatten':
         return {'e': e, 'sp': dom, 'order': draw(st.sampled_from(['C', 'F']))}
     if e == 'sampling':
@@ -1399,7 +1473,7 @@ def _tree(draw, U, dom, ran, depth):
     if _teq(dom, ran):
         kinds += ['pow']
     if not U.is_field(ran) and not U.is_field(dom) and \
-            U.parts(ran) is None:
+            U.parts(ran) is None and U.tfield(dom) == U.tfield(ran):
         kinds += ['flvec']
     k = draw(st.sampled_from(kinds))
     fd, fr = U.tfield(dom), U.tfield(ran)
@@ -1421,11 +1495,16 @@ def _tree(draw, U, dom, ran, depth):
     if k == 'lscal':
         return {'e': k, 's': draw(scalars(fr)),
                 'args': [draw(_tree(U, dom, ran, depth - 1))]}
-    if k in ('rscal', 'rscal_mul'):
-        return {'e': k, 's': draw(scalars(fd)),
+    both = fd if fd == fr else 'real'
+    if k == 'rscal':
+        # (A * s) * t re-enters __mul__, which needs t in the range field
+        return {'e': k, 's': draw(scalars(both if depth > 1 else fd)),
+                'args': [draw(_tree(U, dom, ran, depth - 1))]}
+    if k == 'rscal_mul':
+        return {'e': k, 's': draw(scalars(both)),
                 'args': [draw(_tree(U, dom, ran, depth - 1))]}
     if k == 'div':
-        return {'e': k, 's': draw(scalars(fd, zero_ok=False)),
+        return {'e': k, 's': draw(scalars(both, zero_ok=False)),
                 'args': [draw(_tree(U, dom, ran, depth - 1))]}
     if k in ('lvec', 'rvec'):
         return {'e': k, 'v': draw(seeds()),
@@ -1467,8 +1546,13 @@ def draw_free_k(sd):
 @st.composite
 def _mid_type(draw, U, dom, ran):
     pool = _type_pool(U) + [dom, ran]
-    if not U.is_field(dom) and U.parts(dom) is None:
+    if not U.is_field(dom) and not U.is_field(ran) and \
+            U.tfield(dom) == U.tfield(ran):
         pool += [['field', dom]]
+    # a functional X -> F needs field(X) == F (and F -> X likewise)
+    for T in (dom, ran):
+        if U.is_field(T):
+            pool = [t for t in pool if U.tfield(t) == U.tfield(T)]
     return draw(st.sampled_from(pool))
 
 
@@ -1486,6 +1570,7 @@ def fam_tree(draw, max_depth=3):
             st.sampled_from([1, 3])), bdry=False if clean else None))
     sdy = draw(tensor_sd(field, max_size=3, max_ndim=1,
                          wkinds=('none', 'const')))
+    sdy['dtype'] = sdx['dtype']
     U = Universe(field, sdx, sdy)
     pool = _type_pool(U)
     dom = draw(st.sampled_from(pool))
@@ -1504,6 +1589,7 @@ def fam_blocks(draw):
                        bdry=False))
     sdy = draw(tensor_sd(field, max_size=3, max_ndim=1,
                          wkinds=('none', 'const')))
+    sdy['dtype'] = sdx['dtype']
     U = Universe(field, sdx, sdy)
     nd = draw(st.integers(1, 3))
     nr = draw(st.integers(1, 3))
@@ -1512,7 +1598,7 @@ def fam_blocks(draw):
     e = draw(st.sampled_from(['pspaceop', 'pspaceop', 'broadcast',
                               'reduction', 'diagonal', 'repeat']))
     if e == 'pspaceop':
-        wd = draw(st.sampled_from([None, None, None, 'w']))
+        wd = draw(st.sampled_from([None] * 9 + ['w']))
         dom = ['prod', pd] + ([draw(pweights(nd, ('const', 'array')))]
                               if wd else [])
         ran = ['prod', pr]
